@@ -13,6 +13,14 @@ import tables
 SCALAR_VALUES = [(0, 0xD7FF), (0xE000, 0x10FFFF)]
 
 
+def _mem_variants(facts):
+    """Names of the in-memory variants of the owned / borrowed input enums."""
+    import vocab
+
+    v = vocab.lib_vocab(facts)
+    return {v["input"]["mem"], v["ref"]["mem"], v["source"]["mem"]}
+
+
 def detect_fn(lib):
     """The encoding detector: the only lib fn whose HIR tables contain slice patterns with the BOM
     bytes 0xFE and 0xFF."""
@@ -154,7 +162,7 @@ def r02_1(ctx):
             if (f2.get("resolved") or f2.get("def")) != d.id:
                 continue
             tr2 = strace(sup, n2, t2["args"][0])
-            same = any(s[0] == "downcast" and s[1] == "Slice" for s in tr2.steps)
+            same = any(s[0] == "downcast" and s[1] in _mem_variants(ctx.facts) for s in tr2.steps)
             if not same:
                 why = "the detector is applied to a different buffer"
                 continue
@@ -554,7 +562,7 @@ def r07_6(ctx):
         tr = trace(b, op)
         ok = False
         det = f"detector input originates from {tr.origin[0] if tr.origin else '?'}"
-        if any(s[0] == "downcast" and s[1] == "Slice" for s in tr.steps):
+        if any(s[0] == "downcast" and s[1] in _mem_variants(ctx.facts) for s in tr.steps):
             return [(True, "whole input slice", b, bb)]
         if tr.origin and tr.origin[0] == "arg" and depth < 3 and all(s[0] in ("use", "ref", "deref") for s in tr.steps):
             # a helper that receives the bytes: judge every caller's operand
